@@ -184,6 +184,9 @@ def real_run(c):
         shutil.rmtree(tmp, ignore_errors=True)
 
 
+real_run = common.with_history(real_run)
+
+
 # ----------------------------------------------------------------------------- independent oracle
 
 def _frac_inv(H):
@@ -486,8 +489,10 @@ def run_cases(run, cases, nfd):
 
 def correspond(run):
     quick = run.tier == "quick"
-    n = 45 if quick else 2500
-    cases = common.load_corpus(PROP) + [gen_case(run.rng, big=(not quick or i % 5 == 0)) for i in range(n)]
+    n = 110 if quick else 2500
+    cases = common.load_corpus(PROP) + common.add_siblings(
+        run.rng, [gen_case(run.rng, big=(not quick or i % 5 == 0)) for i in range(n)],
+        lambda rng, c: dict(c, pos=common.jitter_positions(rng, c["pos"], 0.04, 3)), every=5)   # same cell, types, parameters: positions moved a little
     dis, pf = run_cases(run, cases, nfd=2 if quick else 4)
     run.coverage["traces_validated_against_impl"] = run.coverage["evaluations"]
     run.coverage["programs"] = 3
